@@ -147,7 +147,11 @@ func runNode(dir string) {
 				var tx *etypes.Transaction
 				switch {
 				case kind == "kv":
-					enc, _ := rlp.EncodeToBytes(&rtypes.KV{Key: []byte(fmt.Sprintf("k-%d-%d", ai, nonce+j)), Value: []byte(fmt.Sprintf("v-%d", height))})
+					kvKey := fmt.Sprintf("k-%d-%d", ai, nonce+j)
+					if (nonce+j)%2 == 1 {
+						kvKey = fmt.Sprintf("shared-%d", ai) // updated again and again: a growing history
+					}
+					enc, _ := rlp.EncodeToBytes(&rtypes.KV{Key: []byte(kvKey), Value: []byte(fmt.Sprintf("v-%d-%d", height, nonce+j))})
 					tx = etypes.NewTransaction(nonce+j, common.Address{}, big.NewInt(0), 100000, big.NewInt(0), append(append([]byte{}, rtypes.KVTxType...), enc...))
 				case (nonce+j)%3 == 0:
 					// a contract whose constructor stores its creation nonce and returns tiny code
@@ -287,8 +291,30 @@ func reexecChain(dir string) {
 		say("FATAL reexec start %v", err)
 		os.Exit(3)
 	}
+	// the recovered node's own application, opened on the copied databases
+	rconf := viper.New()
+	rconf.Set("db_dir", filepath.Join(dir, "data"))
+	rconf.Set("block_size", 50)
+	recovered, err := evm.NewEVMApp(rconf)
+	if err != nil {
+		say("FATAL reexec recovered app %v", err)
+		os.Exit(3)
+	}
+	recovered.Start()
+	appHeight := recovered.Info().LastBlockHeight
 	out := []map[string]any{}
+	var txHashes [][]byte
 	for hgt := int64(1); hgt <= store.Height(); hgt++ {
+		if hgt == appHeight+1 {
+			// both applications have now executed exactly blocks 1..appHeight: everything a client
+			// can ask must be answered identically (exactly-once application also of the data that
+			// is not covered by the hashes: receipts, key-value records and their update history)
+			if diff := compareQueries(app, recovered, txHashes); diff != "" {
+				say("QUERYDIFF %s", diff)
+			} else {
+				say("QUERYSAME height=%d", appHeight)
+			}
+		}
 		blk := store.LoadBlock(hgt)
 		if blk == nil {
 			say("FATAL reexec block %d unreadable", hgt)
@@ -303,12 +329,74 @@ func reexecChain(dir string) {
 			say("FATAL reexec commit %d %v", hgt, err)
 			os.Exit(3)
 		}
+		for _, tx := range blk.Data.Txs {
+			t := new(etypes.Transaction)
+			if rlp.DecodeBytes(tx, t) == nil {
+				hh := t.Hash()
+				txHashes = append(txHashes, hh[:])
+			}
+		}
 		cr := cres.(gtypes.CommitResult)
 		out = append(out, map[string]any{"height": hgt, "app_hash": hex.EncodeToString(cr.AppHash), "receipts_hash": hex.EncodeToString(cr.ReceiptsHash)})
+	}
+	if appHeight >= store.Height() {
+		if diff := compareQueries(app, recovered, txHashes); diff != "" {
+			say("QUERYDIFF %s", diff)
+		} else {
+			say("QUERYSAME height=%d", appHeight)
+		}
 	}
 	bz, _ := json.Marshal(map[string]any{"results": out})
 	say("REPORT %s", bz)
 	os.Exit(0)
+}
+
+// compareQueries asks both applications the same questions and returns the first difference.
+func compareQueries(a, b *evm.EVMApp, txHashes [][]byte) string {
+	ask := func(app *evm.EVMApp, q []byte) string {
+		r := app.Query(q)
+		return fmt.Sprintf("%v|%x", r.Code, r.Data)
+	}
+	history := func(key []byte) string {
+		for _, page := range []byte{0, 1} {
+			hq := []byte{byte(rtypes.QueryType_Key_Update_History), 0, 0, 0, page, 0, 0, 0, 50}
+			hq = append(hq, key...)
+			if ra, rb := ask(a, hq), ask(b, hq); ra != rb {
+				return fmt.Sprintf("update history of key %s (page %d): fresh %.80s recovered %.80s", key, page, ra, rb)
+			}
+		}
+		return ""
+	}
+	for i, k := range keys {
+		addr := ecrypto.PubkeyToAddress(k.PublicKey)
+		q := append([]byte{byte(rtypes.QueryType_Nonce)}, addr[:]...)
+		ra, rb := ask(a, q), ask(b, q)
+		if ra != rb {
+			return fmt.Sprintf("nonce of account %d: fresh %s recovered %s", i, ra, rb)
+		}
+		var nonce uint64
+		rlp.DecodeBytes(a.Query(q).Data, &nonce)
+		ks := [][]byte{[]byte(fmt.Sprintf("shared-%d", i))}
+		for n := uint64(0); n < nonce+2; n++ {
+			ks = append(ks, []byte(fmt.Sprintf("k-%d-%d", i, n)))
+		}
+		for _, key := range ks {
+			q := append([]byte{byte(rtypes.QueryType_Key)}, key...)
+			if ra, rb := ask(a, q), ask(b, q); ra != rb {
+				return fmt.Sprintf("value of key %s: fresh %s recovered %s", key, ra, rb)
+			}
+			if d := history(key); d != "" {
+				return d
+			}
+		}
+	}
+	for _, hh := range txHashes {
+		q := append([]byte{byte(rtypes.QueryType_Receipt)}, hh...)
+		if ra, rb := ask(a, q), ask(b, q); ra != rb {
+			return fmt.Sprintf("receipt of tx %x: fresh %.80s recovered %.80s", hh, ra, rb)
+		}
+	}
+	return ""
 }
 
 // ---------------------------------------------------------------------------------------
@@ -551,6 +639,16 @@ func runCase(base string, c Case, x *h.Ctx) {
 		x.Labelf("reexec-unavailable:%d %s", r3.exit, r3.fatal)
 	} else {
 		x.Label("reexecuted-from-genesis")
+		for _, l := range strings.Split(r3.out, "\n") {
+			if i := strings.Index(l, "C06 QUERYDIFF "); i >= 0 {
+				if x.Fail("recovered-application-answers-differ-from-fresh-reexecution", "after recovery the node's application and a fresh application that executed the same blocks answer a query differently: %s (crash site %s, k=%d): some transaction was not applied exactly once", l[i+len("C06 QUERYDIFF "):], site, c.K) {
+					return
+				}
+			}
+			if strings.Contains(l, "C06 QUERYSAME") {
+				x.Label("queries-compared")
+			}
+		}
 		for _, e := range r3.report["results"].([]any) {
 			m := e.(map[string]any)
 			hgt := int64(m["height"].(float64))
@@ -672,7 +770,7 @@ func TestCrashPoints(t *testing.T) {
 		c0 := Case{Kind: kind, Target: 3}
 		// the write count of a scenario is measured by one of the shards' counting runs; every
 		// shard measures it itself (cheap, keeps shards independent)
-		if (ki % shards) != shard%len(kinds) && !thorough && shards >= len(kinds) {
+		if (ki%shards) != shard%len(kinds) && !thorough && shards >= len(kinds) {
 			// in the quick tier shards split the kinds among themselves
 		}
 		base, _ := os.MkdirTemp("", "c06-")
@@ -690,10 +788,20 @@ func TestCrashPoints(t *testing.T) {
 				ks = append(ks, k)
 			}
 		} else {
-			// quick: a seeded stride through the k space, 8 points per kind
-			step := w/8 + 1
-			for k := 1 + (seed+ki)%step; k <= w; k += step {
-				ks = append(ks, k)
+			// quick: every database write of the commit (block store, consensus state, application
+			// stores: that is where the order of writes matters) and a seeded stride through the WAL /
+			// signer-file writes of the next height that follow them
+			var rest []int
+			for k := 1; k <= w; k++ {
+				if strings.HasPrefix(sites[k-1], "autofile.") || strings.HasPrefix(sites[k-1], "wfa.") {
+					rest = append(rest, k)
+				} else {
+					ks = append(ks, k)
+				}
+			}
+			step := len(rest)/4 + 1
+			for i := (seed + ki) % step; i < len(rest); i += step {
+				ks = append(ks, rest[i])
 			}
 		}
 		for _, k := range ks {
